@@ -14,7 +14,7 @@
    configuration can make a step that the machine reports as an error, and (typed_progress) the head event of every
    started thread can be executed: its thread-local precondition holds. *)
 From Coq Require Import Lia Arith List Bool NArith.
-From LSConc Require Import Clock Mach Inv Top StepSpec.
+From LSConc Require Import Clock Mach Inv Top StepSpec Values.
 From LS Require Import Base Cmd Impl Proto.
 Import ListNotations.
 Local Open Scope nat_scope.
@@ -500,4 +500,36 @@ Proof.
   assert (H0 : total (ths (ms cf)) = 0) by (apply total_zero; intros t; apply Hall).
   destruct (J9 _ W1 Hl H0) as (t & Hm). destruct (Hall t) as (_ & Hm'). unfold T in Hm. congruence.
 Qed.
+(* ---------- the link to the thread-local (view) semantics of Cmd.run ----------
+   Every value an atomic operation on the shared buffer returns to a typed thread — the head of the modification order
+   for its RMWs, whichever message its possibly stale acquire load reads — is that thread's own number of references
+   plus a non-negative rest.  This is the shape [count x + ext_now m] under which Main.execs_sound_from proves that the
+   thread's operations refine Spec for EVERY sequence of rests. *)
+Definition own_plus_rest (g : ghost) (c c' : cmd unit) : Prop :=
+  match c with
+  | Load b o k => b = b0 -> exists v, c' = k v /\ (N.of_nat (g_refs g b0) <= v)%N
+  | Rmw b add o k => b = b0 -> exists v, c' = k v /\ (N.of_nat (g_refs g b0) <= v)%N
+  | _ => True
+  end.
+Lemma estep_value_ge_own t s c g s' c' g' :
+  Inv s -> agree (getth s t) g -> estep t s c g s' c' g' -> own_plus_rest g c c'.
+Proof.
+  intros I (A1 & _) Hstep. destruct Hstep; cbn [own_plus_rest]; auto; try (intros E; congruence).
+  - intros _. eexists. split; [reflexivity|]. rewrite <- A1.
+    pose proof (rmw_value_ge_refs s t AClone s' I (or_introl eq_refl) H). lia.
+  - intros _. eexists. split; [reflexivity|]. rewrite <- A1.
+    pose proof (rmw_value_ge_refs s t ARelease s' I (or_intror eq_refl) H). lia.
+  - intros _. eexists. split; [reflexivity|]. rewrite <- A1.
+    pose proof (probe_value_ge_refs s t p m s' I H0 H). lia.
+Qed.
+Theorem typed_values_ge_own cf0 cf t s' c' g' :
+  WT cf0 -> csteps cf0 cf -> t < length (tc cf) -> started (getth (ms cf) t) = true ->
+  estep t (ms cf) (cur (gettc cf t)) (gh (gettc cf t)) s' c' g' ->
+  own_plus_rest (gh (gettc cf t)) (cur (gettc cf t)) c'.
+Proof.
+  intros H0 Hs Ht Hst He. pose proof (typed_steps cf0 cf H0 Hs) as HW.
+  destruct (wt_started cf HW t Ht Hst) as (Hag & _).
+  eapply estep_value_ge_own; [exact (wt_inv cf HW)|exact Hag|exact He].
+Qed.
+
 End Compose.
